@@ -2054,7 +2054,13 @@ cmd_ical(EV_P_ int ofd, ical_parser_t cmd[static 1U], ncred_t cred)
 			}
 			/* and otherwise inject him, the reply is about his oid */
 			ins.o = ins.t->oid;
-			if (UNLIKELY(_inject_task1(EV_A_ ins.t, cred.u) < 0)) {
+			if (UNLIKELY(!ins.t->oid)) {
+				/* not even an OID, we couldn't tell him from
+				 * an empty slot, nobody could list or cancel him */
+				free_echs_task(ins.t);
+				ins.v = INSVERB_FAIL;
+				break;
+			} else if (UNLIKELY(_inject_task1(EV_A_ ins.t, cred.u) < 0)) {
 				/* reply with REQUEST-STATUS:x */
 				ins.v = INSVERB_FAIL;
 				break;
